@@ -217,6 +217,11 @@ def _alphabet(f, quick, salt, idx):
     if k == "str":
         out = [(f"str:{n}", _fill_str(n, "ascii", salt)) for n in SIZES]
         out += [(f"str-utf8:{n}", _fill_str(n, "utf8", salt)) for n in ((2, 256, 510) if quick else SIZES)]
+        # characters a decoder might be tempted to trim or normalise: a string is its code points, all of them
+        edge = {"nul-last": "net\x00", "nul-only": "\x00", "nul-first": "\x00net", "nul-inside": "a\x00b", "nuls-last": "ab\x00\x00\x00", "space-last": "net ", "space-first": " net",
+                "tab-newline-last": "net\t\r\n", "bom-first": "\ufeffnet", "nbsp-last": "net\u00a0", "combining": "e\u0301", "astral": "\U0001f600x", "del-last": "net\x7f",
+                "nul-last-256": "a" * 255 + "\x00"}
+        out += [(f"str-edge:{k}", v) for k, v in edge.items()]
         return out
     if k == "bytes":
         out = [(f"bytes:{n}", _fill_bytes(n, "pat", salt)) for n in SIZES]
